@@ -115,12 +115,16 @@ Definition dmul_f (a : dual) (r : T) : dual := mkDual (nmul (re a) r) (vs a) (vs
 Definition ddiv_f (a : dual) (r : T) : dual :=
   mkDual (ndiv (re a) r) (vs a) (vscale_l (ndiv n1 r) (du a)).
 (* Pow<f64>: owned and borrowed impls are written twice in pow.rs *)
+(* x^0 is constant: the code multiplies the derivative array by 0.0 instead of evaluating
+   0 * x^(-1) (= 0 * inf = NaN at a zero base) *)
 Definition dpow (a : dual) (pw : T) : dual :=
   mkDual (npow (re a) pw) (vs a)
-    (map (fun x => nmul (nmul x pw) (npow (re a) (nsub pw n1))) (du a)).
+    (map (fun x => if neqb pw n0 then nmul x n0
+                   else nmul (nmul x pw) (npow (re a) (nsub pw n1))) (du a)).
 Definition dpow_ref (a : dual) (pw : T) : dual :=
   mkDual (npow (re a) pw) (vs a)
-    (map (fun x => nmul (nmul x pw) (npow (re a) (nsub pw n1))) (du a)).
+    (map (fun x => if neqb pw n0 then nmul x n0
+                   else nmul (nmul x pw) (npow (re a) (nsub pw n1))) (du a)).
 Definition fdiv_d (r : T) (a : dual) : dual := dmul_f (dpow a nm1) r.            (* a * b.pow(-1.0) *)
 Definition ddiv (p : bool) (a b : dual) : dual :=
   let b_ := mkDual (ndiv n1 (re b)) (vs b)
@@ -205,8 +209,10 @@ Definition d2div_f (a : dual2) (r : T) : dual2 :=
   let c := ndiv n1 r in
   mkDual2 (ndiv (re2 a) r) (vs2 a) (vscale_l c (du2 a)) (mmap (fun e => nmul c e) (dd2 a)).
 Definition d2pow (a : dual2) (pw : T) : dual2 :=
-  let coeff := nmul pw (npow (re2 a) (nsub pw n1)) in
-  let coeff2 := nmul (nmul (nmul nhalf pw) (nsub pw n1)) (npow (re2 a) (nsub pw n2)) in
+  (* x^0 and x^1 have vanishing first / second derivative: guarded against 0 * inf at a zero base *)
+  let coeff := if neqb pw n0 then n0 else nmul pw (npow (re2 a) (nsub pw n1)) in
+  let coeff2 := if neqb pw n0 || neqb pw n1 then n0
+                else nmul (nmul (nmul nhalf pw) (nsub pw n1)) (npow (re2 a) (nsub pw n2)) in
   let cross := outer (du2 a) (du2 a) in
   mkDual2 (npow (re2 a) pw) (vs2 a) (vscale_r (du2 a) coeff)
     (mzip nadd (mmap (fun e => nmul e coeff) (dd2 a)) (mmap (fun e => nmul e coeff2) cross)).
